@@ -474,6 +474,8 @@ def load(want_nc=False):
         late = [f.name for f in p.fns.values() if f.get("coroutine") and f["phase"] != "promoted"]
         if late:
             raise FactsError("coroutine bodies without pre-transform MIR (driver hook did not run): %s" % late[:5])
+        from . import inline
+        p.inlined_helpers = inline.apply(p)
         _prog_cache[snap] = p
     from . import prov
     prov.PROGRAM = _prog_cache[snap]
